@@ -35,7 +35,8 @@ ASSUMPTIONS = [
 REQUIRED_COUNTERS = ["sequences", "operations", "file_probes_with_checkpoint", "final_resumes"]
 EXHAUSTIVE = lambda tier: True  # noqa: E731
 
-TOKENS = ["fitA", "fitB", "fitBo", "is", "smc", "E", "E2", "X", "R", "smc2", "fitB2", "is0", "fit0", "fitBx"]
+TOKENS = ["fitA", "fitB", "fitBo", "is", "smc", "E", "E2", "X", "R", "smc2", "fitB2", "is0", "fit0", "fitBx", "smcX"]
+# smcX: an SMC run into the active file that is interrupted by an exception from the likelihood (caught by the caller)
 # fitBx: a refit whose update of file1 fails (the file is held open elsewhere); the caller catches the error and carries on
 # is0 / fit0: the operation names no file at all (outside a context it touches no file and only changes the object's state)
 # smc2 / fitB2: the operation names file2 explicitly (checkpoint_path=...), whatever context is active
@@ -59,7 +60,7 @@ def valid(seq):
         elif tok.startswith("fit"):
             fitted = True
             has_file = has_file or tok not in ("fitB2", "fit0") or depth > 0
-        elif tok in ("is", "smc", "smc2", "is0"):
+        elif tok in ("is", "smc", "smc2", "is0", "smcX"):
             if not fitted:
                 return False
             has_file = has_file or tok not in ("smc2", "is0") or depth > 0
@@ -74,7 +75,7 @@ def all_sequences(maxlen):
     out = []
     for L in range(1, maxlen + 1):
         for seq in itertools.product(TOKENS, repeat=L):
-            if valid(seq) and any(t in ("is", "smc", "smc2") for t in seq):
+            if valid(seq) and any(t in ("is", "smc", "smc2", "smcX") for t in seq):
                 out.append(list(seq))
     return out
 
@@ -105,7 +106,7 @@ def cases(tier, seed):
         if tries % 8 == 5:
             # structured: inside one context a checkpointed run, a refit whose file update fails, another run
             seq = ["E", str(g.choice(["fitA", "fitB"])), "smc", "fitBx", str(g.choice(["smc", "is"]))] + [TOKENS[i] for i in g.integers(0, len(TOKENS), int(g.integers(0, 3)))]
-        if valid(seq) and ("smc" in seq or "smc2" in seq):
+        if valid(seq) and ("smc" in seq or "smc2" in seq or "smcX" in seq):
             extra.append(seq)
     per = 12
     allseq = seqs + extra
@@ -251,6 +252,14 @@ def run_sequence(seq, g, counters, viol):
             elif tok == "is":
                 kw = {} if inside else {"checkpoint_path": f1}
                 a.sample_posterior(10, sampler="importance", **kw)
+            elif tok == "smcX":
+                kw = {} if inside else {"checkpoint_path": f1}
+                probe.fault_like_at = probe.n_like_calls + int(g.integers(2, 5))
+                res = smcrun.run(a, 10, "smc", dict(smc_kw, rng=np.random.default_rng(int(g.integers(2**31))), **kw), max_calls=500)
+                probe.fault_like_at = None
+                counters["interrupted_runs"] += int(res.exc is not None)
+                if res.exc is not None and type(res.exc).__name__ != "InjectedFault":
+                    raise res.exc
             elif tok == "smc":
                 kw = {} if inside else {"checkpoint_path": f1}
                 res = smcrun.run(a, 10, "smc", dict(smc_kw, rng=np.random.default_rng(int(g.integers(2**31))), **kw), max_calls=500)
@@ -259,6 +268,7 @@ def run_sequence(seq, g, counters, viol):
             elif tok == "R":
                 p2 = Probe(t)
                 a = Aspire.resume_from_file(f1, log_likelihood=p2.log_likelihood, log_prior=p2.log_prior)
+                probe = p2
             done.append(tok)
             tag = f"sequence {seq} after {done}"
             probe_file(f1, tag + " [file1]", viol, counters, flow_cls)
@@ -304,7 +314,7 @@ def run_case(case):
     for seq in case["seqs"]:
         before = len(viol)
         run_sequence(seq, g, counters, viol)
-        if ("smc" in seq and seq.index("smc") < len(seq) - 1) or ("smc2" in seq and seq.index("smc2") < len(seq) - 1):
+        if any(tk in seq and seq.index(tk) < len(seq) - 1 for tk in ("smc", "smc2", "smcX")):
             nontrivial.append(">".join(seq))
         # keep one witness per mechanism per sequence
         seen = {}
